@@ -572,7 +572,24 @@ func r4C15(c *Ctx) {
 	if cu == nil {
 		c.Unresolved("R15.7", "customController.compareAndUpdateObject")
 	} else {
-		for _, ci := range AllCalls(cu) {
+		isGetterCall := func(v ssa.Value, getter string) (*ssa.Call, bool) {
+			call, ok := v.(*ssa.Call)
+			if !ok {
+				return nil, false
+			}
+			cn := ""
+			if call.Call.IsInvoke() {
+				cn = call.Call.Method.Name()
+			} else if f := call.Call.StaticCallee(); f != nil {
+				cn = f.Name()
+			}
+			return call, cn == getter
+		}
+		for _, pr := range withHelperInstrs(cu) {
+			ci, isCall := pr.in.(ssa.CallInstruction)
+			if !isCall {
+				continue
+			}
 			cc := ci.Common()
 			var m string
 			if cc.IsInvoke() {
@@ -586,6 +603,37 @@ func r4C15(c *Ctx) {
 			arg := cc.Args[len(cc.Args)-1]
 			getter := "Get" + strings.TrimPrefix(m, "Set")
 			bad := ""
+			if pr.in != pr.site {
+				// the write sits in a helper of the package: what compareAndUpdateObject stores into the
+				// struct (or passes as the map) it hands to the helper must not be the live object's map
+				site := pr.site.(ssa.CallInstruction)
+				h := site.Common().StaticCallee()
+				sl := BackwardSlice(arg)
+				for i, hp := range h.Params {
+					if !sl[hp] || i >= len(site.Common().Args) {
+						continue
+					}
+					a := site.Common().Args[i]
+					cands := []ssa.Value{a}
+					if ld, ok := a.(*ssa.UnOp); ok {
+						if al, ok := ld.X.(*ssa.Alloc); ok {
+							for _, st := range AllocStoresOf(al) {
+								cands = append(cands, st.Val)
+							}
+						}
+					}
+					for _, cv := range cands {
+						for _, lf := range Leaves(Forwarded(cv), site.Block()) {
+							if call, is := isGetterCall(lf.V, getter); is {
+								bad = "one of the values that reach " + m + " is the live object's own " + getter + "() map (" + p.Pos(call.Pos()) + ")"
+							}
+						}
+					}
+				}
+				c.Ob("R15.7", "compareAndUpdateObject#"+m, pr.site.Pos(), bad == "", "the map handed to "+m+" is the script's result or a fresh map",
+					ifs(bad != "", bad+": keys written for an earlier step stay in place when the script's output for this step has none, so steps accumulate"))
+				continue
+			}
 			for _, lf := range Leaves(Forwarded(arg), ci.Block()) {
 				if call, ok := lf.V.(*ssa.Call); ok {
 					cn := ""
